@@ -15,6 +15,8 @@
 //	                                               (target: the peer announced its block of that height, its tip is above)
 //	dl <tok> <h> <tok> <h> | cs fin=h n=k          downloader / common block search against the honest peer (geometry.go)
 //	reset ... st=h                                 chains with finality stalled above height h (scenario.go)
+//	sfs h= n= gen= | ss d= n= | fs fin= n=         shouldFastSync / shouldSync / fast sync common block request (method.go)
+//	reset ... sq=1 rc=1                            requester's own blocks without prevotes / recent timestamps (scenario.go)
 //	     [restart=1] [sy=1]                        (pseudo-property C04SYNC only, c04sync.go: requester restarted right
 //	                                               before; forced synchroniser run with the Executer's syncying flag set)
 //
@@ -49,6 +51,7 @@ func (prop) RunImpl(c corr.Case) (outs []string, fails []corr.Fail) {
 	var cur *chains
 	var fx *fixture
 	var pr *pair
+	pairs, sweepOff := 0, false
 	defer func() {
 		if fx != nil {
 			fx.close()
@@ -78,6 +81,7 @@ func (prop) RunImpl(c corr.Case) (outs []string, fails []corr.Fail) {
 				}
 				pr.stop()
 				pr = nil
+				pairs, sweepOff = 0, false
 				if cur != nil {
 					release(cur)
 					cur = nil
@@ -93,6 +97,12 @@ func (prop) RunImpl(c corr.Case) (outs []string, fails []corr.Fail) {
 				prm.N, ok[3] = kvInt(w, "n")
 				prm.Cache, ok[4] = kvInt(w, "cache")
 				prm.St, _ = kvInt(w, "st")
+				if v, _ := kvInt(w, "sq"); v == 1 {
+					prm.Sq = true
+				}
+				if v, _ := kvInt(w, "rc"); v == 1 {
+					prm.Rc = true
+				}
 				for _, o := range ok {
 					if !o {
 						return "bad-op", nil
@@ -126,13 +136,19 @@ func (prop) RunImpl(c corr.Case) (outs []string, fails []corr.Fail) {
 			if w[0] == "sync" {
 				return runSync(cur, w[1:])
 			}
-			if w[0] == "dl" || w[0] == "cs" {
+			if w[0] == "dl" || w[0] == "cs" || w[0] == "fs" {
 				if pr != nil && pr.hung {
 					return "timeout", nil
 				}
 				if pr != nil && pr.dead {
-					pr.stop()
+					go pr.stop() // (can take seconds after a ban: not waited for)
 					pr = nil
+					if pairs++; pairs >= maxPairsPerCase {
+						sweepOff = true
+					}
+				}
+				if sweepOff {
+					return "skipped-connection-lost", nil
 				}
 				if pr == nil {
 					var out string
@@ -147,6 +163,9 @@ func (prop) RunImpl(c corr.Case) (outs []string, fails []corr.Fail) {
 				if w[0] == "dl" {
 					return pr.download(cur, w[1:])
 				}
+				if w[0] == "fs" {
+					return pr.fastCommon(cur, w[1:])
+				}
 				return pr.commonSearch(cur, w[1:])
 			}
 			if fx == nil {
@@ -157,6 +176,10 @@ func (prop) RunImpl(c corr.Case) (outs []string, fails []corr.Fail) {
 				}
 			}
 			switch w[0] {
+			case "sfs":
+				return fx.shouldFast(w[1:])
+			case "ss":
+				return fx.shouldBlock(w[1:])
 			case "glb":
 				return fx.lastBlock()
 			case "hcb":
@@ -215,7 +238,7 @@ func (prop) RunImpl(c corr.Case) (outs []string, fails []corr.Fail) {
 func (prop) Classify(c corr.Case, out []string) string {
 	kinds := map[string]bool{}
 	var prm params
-	finQ := 0
+	finQ, w0reset := 0, ""
 	for i, op := range c.Ops {
 		if i >= len(out) {
 			break
@@ -231,6 +254,7 @@ func (prop) Classify(c corr.Case, out []string) string {
 		}
 		switch w[0] {
 		case "reset":
+			w0reset = op
 			prm.P, _ = kvInt(w, "P")
 			prm.F, _ = kvInt(w, "F")
 			prm.Q, _ = kvInt(w, "Q")
@@ -265,6 +289,28 @@ func (prop) Classify(c corr.Case, out []string) string {
 			fin, _ := kvInt(w, "fin")
 			n, _ := kvInt(w, "n")
 			kinds["geo:search:"+searchClass(prm.Q, fin, n, prm.F)+":"+first] = true
+		case "fs":
+			fin, _ := kvInt(w, "fin")
+			n, _ := kvInt(w, "n")
+			kinds["geo:fastcommon:"+fastClass(prm.Q, fin, n, prm.F)+":"+first] = true
+		case "sfs":
+			h, _ := kvInt(w, "h")
+			n, _ := kvInt(w, "n")
+			g, _ := kvInt(w, "gen")
+			cl := "at-tip"
+			switch d := h - prm.P; {
+			case d < -2*n:
+				cl = "far-below"
+			case d < 0:
+				cl = "below-within-2-rounds"
+			case d > 2*n:
+				cl = "far-above"
+			case d > 0:
+				cl = "above-within-2-rounds"
+			}
+			kinds[fmt.Sprintf("geo:method:fast:%s:gen%d:%s", cl, g, first)] = true
+		case "ss":
+			kinds["geo:method:block:"+first] = true
 		case "best":
 			if strings.Contains(out[i], ",") {
 				kinds["best:several-answers"] = true
@@ -308,6 +354,23 @@ func (prop) Classify(c corr.Case, out []string) string {
 			}
 			if b.target >= 0 && b.target < prm.P {
 				cl += ":tip-above-announced"
+			}
+			// the announced block relative to the own tip, the fork point relative to the finalized block
+			ann := prm.P
+			if b.target >= 0 {
+				ann = b.target
+			}
+			switch {
+			case ann < prm.Q:
+				cl += ":announced-below-own-tip"
+			case ann == prm.Q:
+				cl += ":announced-at-own-tip"
+			}
+			if mode == "fast" && prm.F == finQ {
+				cl += ":fork-at-finalized"
+			}
+			if strings.Contains(w0reset, " rc=1") {
+				cl += ":recent"
 			}
 			return cl
 		}
@@ -732,6 +795,7 @@ func genSync(rng *rand.Rand, tier string) []corr.Case {
 		add(params{P: 60, F: 40, Q: 45, N: 7, Cache: 515}, "badexec=50")
 	}
 	l = append(l, genSyncGeometry(rng, tier)...)
+	l = append(l, genSyncMethod(rng, tier)...)
 	var cases []corr.Case
 	for _, sc := range l {
 		f, err := factsOf(sc.prm)
@@ -750,6 +814,13 @@ func genSync(rng *rand.Rand, tier string) []corr.Case {
 			}
 			op += fmt.Sprintf(" finpeak=%d", fp)
 		}
+		if sc.prm.Rc {
+			age, err := recency(sc.prm)
+			if err != nil {
+				continue
+			}
+			op += fmt.Sprintf(" age=%d", age)
+		}
 		if t, ok := kvInt(strings.Fields(sc.b), "target"); ok {
 			m, err := mhpAt(sc.prm, t)
 			if err != nil {
@@ -766,6 +837,7 @@ func (prop) Generate(rng *rand.Rand, tier string) []corr.Case {
 	var cases []corr.Case
 	cases = append(cases, genSync(rng, tier)...)
 	cases = append(cases, genGeometry(rng, tier)...)
+	cases = append(cases, genMethod(rng, tier)...)
 	cases = append(cases, genHandlers(rng, tier)...)
 	cases = append(cases, genHelpers(rng, tier)...)
 	cases = append(cases, genBest(rng, tier)...)
